@@ -60,6 +60,9 @@ type Sched struct {
 	tasks    []*Task
 	cur      *Task
 	timer    *time.Timer
+	streak   int
+	Fair     int // maximum consecutive decisions for one task while others are enabled
+	Forced   int // decisions taken by the fairness rule
 	notify   chan struct{}
 	Schedule []uint8
 	pos      int
@@ -79,7 +82,7 @@ type Sched struct {
 // New returns a scheduler for one case.
 func New(schedule []uint8) *Sched {
 	return &Sched{notify: make(chan struct{}, 1), Schedule: schedule,
-		MaxSteps: 20000, Watchdog: 20 * time.Second}
+		MaxSteps: 20000, Watchdog: 20 * time.Second, Fair: 300}
 }
 
 // Seq returns the next value of a global event counter (total order of recorded events).
@@ -304,7 +307,16 @@ func (s *Sched) Step() (bool, error) {
 		}
 	}
 	var pick *Task
-	if v == 0 || len(en) == 1 {
+	if lastEnabled && len(en) > 1 && s.streak >= s.Fair {
+		// fairness: a task that spins (e.g. a read loop polling a failing
+		// transport) must not starve the task that would end the spin
+		for i, t := range en {
+			if t == s.last {
+				pick = en[(i+1)%len(en)]
+			}
+		}
+		s.Forced++
+	} else if v == 0 || len(en) == 1 {
 		if lastEnabled {
 			pick = s.last
 		} else {
@@ -339,6 +351,11 @@ func (s *Sched) resumeTask(t *Task) error {
 	s.mu.Unlock()
 	if s.Trace != nil {
 		s.Trace(step, t, from)
+	}
+	if s.last == t {
+		s.streak++
+	} else {
+		s.streak = 0
 	}
 	s.last = t
 	t.resume <- struct{}{}
